@@ -1176,6 +1176,27 @@ impl super::DiskFS for Disk {
         }
         match self.prepare_to_write(&fimg.full_path) {
             Ok((name,dir_key_block,loc,new_key_block)) => {
+                // refuse before the entry is written if the file cannot be stored, so that a failed put leaves no partial file
+                if fimg.chunks.len()==0 {
+                    error!("empty data is not allowed for ProDOS file images");
+                    return Err(Box::new(Error::EndOfData));
+                }
+                let end = fimg.end();
+                let mut blocks_needed = fimg.chunks.len();
+                if end>1 {
+                    blocks_needed += 1; // first index block
+                }
+                if end>256 {
+                    blocks_needed += 1; // master index block
+                    for grp in 1..=(end-1)/256 {
+                        if (grp*256..(grp+1)*256).any(|i| fimg.chunks.contains_key(&i)) {
+                            blocks_needed += 1; // further index blocks exist only where there is data
+                        }
+                    }
+                }
+                if end>128*256 || blocks_needed > self.num_free_blocks()? as usize {
+                    return Err(Box::new(Error::DiskFull));
+                }
                 // update the file count in the parent key block
                 let mut dir = self.get_directory(dir_key_block as usize)?;
                 dir.inc_file_count();
